@@ -232,13 +232,13 @@ class FaultyRaw(io.RawIOBase):
                 pass
 
 
-def make_stream(raw, buffer_size=8192, line_buffering=False):
+def make_stream(raw, buffer_size=8192, line_buffering=False, encoding='utf-8', errors='backslashreplace'):
     if buffer_size == 0:
         # PYTHONUNBUFFERED / -u: the text layer writes straight through to the raw file
-        return io.TextIOWrapper(raw, encoding='utf-8', errors='backslashreplace', line_buffering=False,
+        return io.TextIOWrapper(raw, encoding=encoding, errors=errors, line_buffering=False,
                                 write_through=True)
-    return io.TextIOWrapper(io.BufferedWriter(raw, buffer_size=buffer_size), encoding='utf-8',
-                            errors='backslashreplace', line_buffering=line_buffering, write_through=False)
+    return io.TextIOWrapper(io.BufferedWriter(raw, buffer_size=buffer_size), encoding=encoding,
+                            errors=errors, line_buffering=line_buffering, write_through=False)
 
 
 ###############################################################################
@@ -247,7 +247,7 @@ def make_stream(raw, buffer_size=8192, line_buffering=False):
 
 
 class ProcessResult:
-    __slots__ = ('status', 'stdout', 'stderr', 'handler', 'uncaught', 'flush_failed', 'out_bytes', 'err_bytes')
+    __slots__ = ('status', 'stdout', 'stderr', 'handler', 'uncaught', 'flush_failed', 'out_bytes', 'err_bytes', 'stdout_is_utf8')
 
     def __init__(self):
         self.status = None
@@ -258,11 +258,14 @@ class ProcessResult:
         self.flush_failed = False
 
 
-def run_process(main, argv, out_raw, err_raw, out_buffer=8192, err_line_buffered=True, wrapper=None):
+def run_process(main, argv, out_raw, err_raw, out_buffer=8192, err_line_buffered=True, wrapper=None,
+                out_encoding=('utf-8', 'strict')):
     """Run main(argv) the way `python -m hpl` would. `wrapper` is a context manager factory used to
     install further injectors (file system, interrupter) around the call."""
     res = ProcessResult()
-    new_out = make_stream(out_raw, buffer_size=out_buffer)
+    # CPython: stdout encodes with the locale's encoding and 'strict' (surrogateescape under the C
+    # locale); stderr always uses 'backslashreplace'
+    new_out = make_stream(out_raw, buffer_size=out_buffer, encoding=out_encoding[0], errors=out_encoding[1])
     new_err = make_stream(err_raw, buffer_size=1, line_buffering=err_line_buffered)
     old = (sys.stdout, sys.stderr)
     sys.stdout, sys.stderr = new_out, new_err
@@ -296,6 +299,11 @@ def run_process(main, argv, out_raw, err_raw, out_buffer=8192, err_line_buffered
     finally:
         sys.stdout, sys.stderr = old
     res.status = status
+    try:
+        out_raw.data.decode('utf-8')
+        res.stdout_is_utf8 = True
+    except UnicodeDecodeError:
+        res.stdout_is_utf8 = False
     res.stdout = out_raw.text()
     res.stderr = err_raw.text()
     res.out_bytes = len(out_raw.data)
